@@ -229,6 +229,7 @@ fn c04_diff<'a, T: DiffableStr + ?Sized>(
     if all.len() <= 10 && modes_wanted(old.len() + new.len(), 5) {
         consumption_modes(&|| "iter_all_changes".to_string(), || diff.iter_all_changes(), |c| (c.tag(), c.old_index(), c.new_index(), c.value().as_bytes().as_ptr() as usize, c.value().as_bytes().len()))?;
         crate::both_ends_modes!(|| "iter_all_changes".to_string(), || diff.iter_all_changes(), |c: similar::Change<&T>| (c.tag(), c.old_index(), c.new_index(), c.value().as_bytes().as_ptr() as usize, c.value().as_bytes().len()))?;
+        crate::clone_modes!(|| "iter_all_changes".to_string(), || diff.iter_all_changes(), |c: similar::Change<&T>| (c.tag(), c.old_index(), c.new_index(), c.value().as_bytes().as_ptr() as usize, c.value().as_bytes().len()))?;
         for (i, op) in diff.ops().iter().enumerate() {
             if i < 2 || i + 1 == diff.ops().len() {
                 consumption_modes(&|| format!("iter_changes({:?})", op), || diff.iter_changes(op), |c| (c.tag(), c.old_index(), c.new_index(), c.value().as_bytes().as_ptr() as usize, c.value().as_bytes().len()))?;
